@@ -156,6 +156,11 @@ func (w *World) fieldNonEmpty(owner types.Type, field int, depth int) (bool, str
 				}
 				n++
 				if ok, why := w.nonEmptyAt(st.Val, in, depth+1); !ok {
+					// a provisional value that is replaced before the object leaves the function
+					// whenever it is empty (`x.f = v; if len(v) == 0 { x.f = dflt }`)
+					if w.replacedIfEmpty(st, fa, depth) {
+						continue
+					}
 					return false, "store at " + w.instrPos(in) + ": " + why
 				}
 			}
@@ -362,4 +367,73 @@ func (w *World) cellNonEmptyBefore(al *ssa.Alloc, at ssa.Instruction, depth int)
 		return false, "capture point unreachable"
 	}
 	return bad == "", orStr(bad, "non-empty on every path to the capture point")
+}
+
+
+// replacedIfEmpty: st stores a possibly empty value into field fa of a local struct variable; on
+// every path from st to a point where the variable is read as a whole, passed on or the function
+// returns, either the path takes the len(value) != 0 edge of a test of the same value, or the
+// field is stored again with a non-empty value.
+func (w *World) replacedIfEmpty(st *ssa.Store, fa *ssa.FieldAddr, depth int) bool {
+	al, ok := fa.X.(*ssa.Alloc)
+	if !ok {
+		return false
+	}
+	sameField := func(addr ssa.Value) bool {
+		f2, ok := addr.(*ssa.FieldAddr)
+		return ok && f2.X == ssa.Value(al) && f2.Field == fa.Field
+	}
+	usesWhole := func(in ssa.Instruction) bool {
+		for _, op := range in.Operands(nil) {
+			if *op == ssa.Value(al) {
+				switch in.(type) {
+				case *ssa.FieldAddr, *ssa.DebugRef:
+				default:
+					return true
+				}
+			}
+		}
+		return false
+	}
+	type key struct {
+		b   *ssa.BasicBlock
+		idx int
+	}
+	seen := map[key]bool{}
+	var walk func(b *ssa.BasicBlock, idx int) bool
+	walk = func(b *ssa.BasicBlock, idx int) bool {
+		if seen[key{b, idx}] {
+			return true
+		}
+		seen[key{b, idx}] = true
+		for i := idx; i < len(b.Instrs); i++ {
+			in := b.Instrs[i]
+			if s2, ok := in.(*ssa.Store); ok && sameField(s2.Addr) {
+				ok2, _ := w.nonEmptyAt(s2.Val, in, depth+1)
+				return ok2
+			}
+			if _, isRet := in.(*ssa.Return); isRet || usesWhole(in) {
+				return false
+			}
+			if ifi, ok := in.(*ssa.If); ok {
+				good := lenGuardGoodSucc(w, ifi, st.Val)
+				for _, succ := range b.Succs {
+					if good != nil && succ == good {
+						continue // the value is non-empty on this edge
+					}
+					if !walk(succ, 0) {
+						return false
+					}
+				}
+				return true
+			}
+		}
+		for _, succ := range b.Succs {
+			if !walk(succ, 0) {
+				return false
+			}
+		}
+		return len(b.Succs) > 0
+	}
+	return walk(st.Block(), instrIndex(st)+1)
 }
